@@ -309,8 +309,8 @@ func c03Random(e *core.Env, rep *core.Report) {
 		o.Hostile = false
 	})
 	type exp struct {
-		want  judge.Result
-		what  string
+		want judge.Result
+		what string
 	}
 	expect := map[string]exp{}
 	r := rand.New(rand.NewSource(e.Seed*6151 + 3))
